@@ -232,7 +232,7 @@ func (g *docGen) render(n *cnode) string {
 	case "P":
 		return g.wrap("p", "", g.kidsHTML(n))
 	case "DIV":
-		return g.wrap(g.pick("div", "section", "article", "div"), "", g.kidsHTML(n))
+		return g.wrap(g.pick("div", "section", "article", "div", "main", "address", "header"), "", g.kidsHTML(n))
 	case "H":
 		return g.wrap(g.pick("h2", "h3", "h4"), "", g.kidsHTML(n))
 	case "UL":
